@@ -39,10 +39,21 @@ DIRECTED = [
     # a time-out does not disturb the other pending call; the late answer is dropped
     ('timeout-isolated', 1, [('Accept', 0, 'valid', 0), ('Ready', 1, '', 0), ('Call', 0, 'GetTx', 1), ('Call', 1, 'GetHeader', 2), ('Respond', 1, 'ok', 0),
                              ('Timeout', 0, '', 0), ('Respond', 0, 'ok', 0), ('Call', 0, 'GetTx', 1), ('Respond', 0, 'ok', 0)]),
+    ('timeout-then-retry', 1, [('Accept', 0, 'valid', 0), ('Ready', 1, '', 0), ('Call', 0, 'GetTx', 1), ('Call', 1, 'GetHeaders', 2), ('Call', 2, 'SendTx', 3),
+                               ('Timeout', 0, '', 0), ('Call', 0, 'GetTx', 1), ('Call', 1, 'GetHeaders', 2), ('Call', 2, 'SendTx', 3),
+                               ('Respond', 0, 'ok', 0), ('Respond', 1, 'ok', 0), ('Respond', 2, 'ok', 0)]),
     # a call abandoned before the handshake: its request still goes out, the answer is absorbed, a later call is served
     ('abandoned', 1, [('Call', 0, 'GetTx', 1), ('Timeout', 0, '', 0), ('Accept', 0, 'valid', 0), ('Ready', 1, '', 0), ('Call', 1, 'GetTx', 1),
                       ('RespondStale', 0, 'GetTx', 1), ('Respond', 1, 'ok', 0)]),
 ]
+
+
+KINDS = ['GetTx', 'GetHeader', 'GetHeaders', 'ReprocessTx', 'MarkInvalid', 'MarkNotInvalid', 'SendTx']
+for _k in KINDS:
+    # two concurrent calls of one kind with different keys: answers crossed, rejects crossed, a late duplicate, an answer for another key
+    DIRECTED.append(('crossed-' + _k, 1, [('Accept', 0, 'valid', 0), ('Ready', 1, '', 0), ('Call', 0, _k, 1), ('Call', 1, _k, 2), ('Call', 2, _k, 3),
+                                          ('Respond', 1, 'ok', 0), ('Respond', 0, 'wrongkey', 0), ('Respond', 2, 'reject', 0), ('Respond', 1, 'ok', 0),
+                                          ('Respond', 0, 'ok', 0)]))
 
 
 def directed():
@@ -56,6 +67,8 @@ def directed():
 def model(chk, thorough):
     """Exhaustive runs: the model as the code is (invariants, step properties), and with the reject routing repaired."""
     res = []
+    if os.environ.get('VERIF_SKIP_MODEL'):
+        return res          # self-test of the code-side machinery (tools/mutate.py): the model does not depend on the code
     sub = {'MaxSteps = 5': 'MaxSteps = 6'} if thorough else {}
     for name, extra in (('as-is full', {}), ('as-is control', {'Full = TRUE': 'Full = FALSE'}),
                         ('repaired full', {'Fix <- NoFix': 'Fix <- AllFix', 'PROPERTIES StepProps': 'PROPERTIES StepProps RejectProps'})):
